@@ -41,6 +41,12 @@ def make_ruleset(rng, name):
             rs["files"]["C%d" % n] = [("L" * n, 0.7), ("U" + "L" * (n - 1), 0.3)] if n > 1 else [("L", 0.6), ("U", 0.4)]
         elif c in "DOK":
             vals = [(BASE[c] * 3)[i:i + n] for i in range(2)]
+            if c == "O" and rng.random() < 0.7:
+                # 'other' runs that begin or end with a blank ('pass !', 'tom cat'): legal values of the line format
+                blank = rng.choice([" ", " ", "\u00a0", "\u3000"])
+                vals[0] = blank + vals[0][1:] if rng.random() < 0.5 else vals[0][:-1] + blank
+                if n >= 2 and rng.random() < 0.5:
+                    vals[1] = vals[1][:-1] + " "
             rs["files"][k] = [(v, p) for v, p in zip(dict.fromkeys(vals), [0.6, 0.4])]
         elif c == "Y":
             rs["files"][k] = [("2019", 0.5), ("1984", 0.5)]
@@ -110,6 +116,88 @@ def guess_lengths(code_rules_dir, name, sc):
     return per, capped
 
 
+def judge(orig, after_lines, opt, per, replay, step=""):
+    """one edit: `orig` -> `after_lines` under `opt`; `per` = lengths of all non-Markov guesses of the edited ruleset"""
+    vio = []
+    kept = set(a for a, _ in after_lines)
+    # survivors are a sub-list of the original, in order, text unchanged
+    it = iter(orig)
+    if not all(any(x == y for y in it) for x in after_lines):
+        vio.append({"sig": "C20:not-a-sublist" + step, "what": "edited list is not an order-preserving sub-list of the original: %r" % after_lines[:4],
+                    "replay": replay})
+    mn, mx = opt.get("min", 0), opt.get("max", 0)
+    if "min" in opt:
+        for s, ls in per.items():
+            bad = [l for l in ls if l < mn or (mx and l > mx)]
+            if bad:
+                hasx = "X" in s
+                vio.append({"sig": "C20:length-bound:" + ("context-label" if hasx else "plain"),
+                            "what": "kept structure %s yields guesses of length %s outside [%d,%s]" % (s, sorted(bad)[:4], mn, mx or "inf"),
+                            "replay": replay})
+                break
+    toks = lambda s: re.findall(r"[A-Z][0-9]*", s)
+    # structures removed although they pass every requested filter (by the property's own reading)
+    for s, ptxt in orig:
+        if s in kept:
+            continue
+        ok_len = True
+        if "min" in opt and s != "M":
+            t = toks(s)
+            if "X1" in t:
+                continue        # context labels: length not determined by the label (handled above)
+            L = sum(4 if x[0] == "Y" else int(x[1:]) for x in t)
+            ok_len = L >= mn and (not mx or L <= mx)
+        ok_set = True
+        if "set" in opt:
+            st = [x.upper() for x in opt["set"].split(",")]
+            ok_set = all(x[0] in st for x in toks(s))
+        ok_re = True
+        if "regex" in opt:
+            ok_re = all(re.search(rx, s) for rx in opt["regex"].split(","))
+        if ok_len and ok_set and ok_re:
+            vio.append({"sig": "C20:removed-although-passing" + step, "what": "structure %s passes every requested filter but was removed" % s, "replay": replay})
+            break
+    for s in kept:
+        t = toks(s)
+        bad = False
+        if "set" in opt:
+            st = [x.upper() for x in opt["set"].split(",")]
+            bad |= not all(x[0] in st for x in t)
+        if "regex" in opt:
+            bad |= not all(re.search(rx, s) for rx in opt["regex"].split(","))
+        if bad:
+            vio.append({"sig": "C20:kept-although-failing" + step, "what": "structure %s fails a requested filter but was kept" % s, "replay": replay})
+            break
+    return vio
+
+
+def edit_args(name, opt, copy=None):
+    args = [common.PY, "edit_rules.py", "-r", name]
+    if copy:
+        args += ["--copy", copy]
+    if "min" in opt:
+        args += ["--min_length", str(opt["min"]), "--max_length", str(opt["max"])]
+    if "set" in opt:
+        args += ["--terminal_set", opt["set"]]
+    if "regex" in opt:
+        args += ["--regex", opt["regex"]]
+    return args
+
+
+def coq_case(orig, after_lines, opt):
+    rxs = opt["regex"].split(",") if "regex" in opt else []
+    tbl = [(rx, s, bool(re.search(rx, s))) for rx in rxs for s, _ in orig]
+    cfg = "{| min_length := %d; max_length := %d; terminal_set := %s; regexes := %s |}" % (
+        opt.get("min", 0), opt.get("max", 0),
+        "None" if "set" not in opt else "(Some %s)" % common.clist([common.cstr(x.upper()) for x in opt["set"].split(",")]),
+        common.clist([common.cstr(x) for x in rxs]) if rxs else "(@nil str)")
+    pairs = lambda ls: common.clist(["(%s, %s)" % (common.cstr(a), common.cstr(b.strip())) for a, b in ls]) if ls else "(@nil (str * str))"
+    impl = "None" if after_lines is None else "(Some %s)" % pairs(after_lines)
+    return "(%s, %s, %s, %s)" % (
+        common.clist(["(%s, %s, %s)" % (common.cstr(a), common.cstr(b), common.cbool(c)) for a, b, c in tbl]) if tbl else "(@nil (str * str * bool))",
+        cfg, pairs(orig), impl)
+
+
 def run(ctx):
     n = ctx.scale(40, 300)
     sc = common.scratch()
@@ -127,15 +215,7 @@ def run(ctx):
         rulesets.write_ruleset(rs, rd)
         opt = options(ctx.rng)
         copy = ("E%dc" % r) if ctx.rng.random() < 0.35 else None
-        args = [common.PY, "edit_rules.py", "-r", name]
-        if copy:
-            args += ["--copy", copy]
-        if "min" in opt:
-            args += ["--min_length", str(opt["min"]), "--max_length", str(opt["max"])]
-        if "set" in opt:
-            args += ["--terminal_set", opt["set"]]
-        if "regex" in opt:
-            args += ["--regex", opt["regex"]]
+        args = edit_args(name, opt, copy)
         before = tree_hash(rd)
         orig = read_lines(os.path.join(rd, "Grammar", "grammar.txt"))
         p = subprocess.run(args, cwd=code, env=env, stdout=subprocess.PIPE, stderr=subprocess.PIPE, timeout=60)
@@ -165,59 +245,28 @@ def run(ctx):
         if raised:
             vio.append({"sig": "C20:raised", "what": "edit_rules.py failed: %s" % p.stderr.decode()[-200:], "replay": replay})
         else:
-            # survivors are a sub-list of the original, in order, text unchanged
-            it = iter(orig)
-            if not all(any(x == y for y in it) for x in after_lines):
-                vio.append({"sig": "C20:not-a-sublist", "what": "edited list is not an order-preserving sub-list of the original: %r" % after_lines[:4],
-                            "replay": replay})
-            # filter semantics against real guess lengths / labels
-            lens, capped = guess_lengths(rules, name if not copy else name, sc) if False else ({}, False)
-            kept = set(a for a, _ in after_lines)
             per, capped = guess_lengths(rules, os.path.basename(target), sc)
-            mn, mx = opt.get("min", 0), opt.get("max", 0)
-            if "min" in opt:
-                for s, ls in per.items():
-                    bad = [l for l in ls if l < mn or (mx and l > mx)]
-                    if bad:
-                        hasx = "X" in s
-                        vio.append({"sig": "C20:length-bound:" + ("context-label" if hasx else "plain"),
-                                    "what": "kept structure %s yields guesses of length %s outside [%d,%s]" % (s, sorted(bad)[:4], mn, mx or "inf"),
-                                    "replay": replay})
-                        break
-            # structures removed although they pass every requested filter (by the property's own reading)
-            origper, _ = guess_lengths(rules, name, sc) if copy else (None, False)
-            toks = lambda s: re.findall(r"[A-Z][0-9]*", s)
-            for s, ptxt in orig:
-                if s in kept:
-                    continue
-                ok_len = True
-                if "min" in opt and s != "M":
-                    t = toks(s)
-                    if "X1" in t:
-                        continue        # context labels: length not determined by the label (handled above)
-                    L = sum(4 if x[0] == "Y" else int(x[1:]) for x in t)
-                    ok_len = L >= mn and (not mx or L <= mx)
-                ok_set = True
-                if "set" in opt:
-                    st = [x.upper() for x in opt["set"].split(",")]
-                    ok_set = all(x[0] in st for x in toks(s))
-                ok_re = True
-                if "regex" in opt:
-                    ok_re = all(re.search(rx, s) for rx in opt["regex"].split(","))
-                if ok_len and ok_set and ok_re:
-                    vio.append({"sig": "C20:removed-although-passing", "what": "structure %s passes every requested filter but was removed" % s, "replay": replay})
-                    break
-            for s in kept:
-                t = toks(s)
-                bad = False
-                if "set" in opt:
-                    st = [x.upper() for x in opt["set"].split(",")]
-                    bad |= not all(x[0] in st for x in t)
-                if "regex" in opt:
-                    bad |= not all(re.search(rx, s) for rx in opt["regex"].split(","))
-                if bad:
-                    vio.append({"sig": "C20:kept-although-failing", "what": "structure %s fails a requested filter but was kept" % s, "replay": replay})
-                    break
+            vio += judge(orig, after_lines, opt, per, replay)
+            # ---- a second edit of the ruleset just edited (what the first edit wrote is the second one's input)
+            if after_lines and r % 2 == 0:
+                opt2 = options(ctx.rng)
+                tname = os.path.basename(target)
+                before2 = tree_hash(target)
+                p2 = subprocess.run(edit_args(tname, opt2), cwd=code, env=env, stdout=subprocess.PIPE, stderr=subprocess.PIPE, timeout=60)
+                dist["second_edits"] = dist.get("second_edits", 0) + 1
+                replay2 = {"ruleset": rs, "options": opt, "copy": bool(copy), "then": opt2}
+                if p2.returncode != 0:
+                    vio.append({"sig": "C20:raised:second-edit", "what": "second edit_rules.py run failed: %s" % p2.stderr.decode()[-200:], "replay": replay2})
+                    cases.append(coq_case(after_lines, None, opt2))
+                else:
+                    after2 = read_lines(os.path.join(target, "Grammar", "grammar.txt"))
+                    per2, _ = guess_lengths(rules, tname, sc)
+                    vio += judge(after_lines, after2, opt2, per2, replay2, ":second-edit")
+                    a2 = tree_hash(target, skip=("Grammar/grammar.txt",))
+                    if a2 != {k: v for k, v in before2.items() if k != "Grammar/grammar.txt"}:
+                        vio.append({"sig": "C20:other-file-touched", "what": "the second edit changed files other than Grammar/grammar.txt", "replay": replay2})
+                    cases.append(coq_case(after_lines, after2, opt2))
+                    dist["second_edits_removing"] = dist.get("second_edits_removing", 0) + (len(after2) < len(after_lines))
         hasx = any("X" in s for s, _ in orig)
         dist["with_X"] += hasx
         dist["with_markov"] += any(s == "M" for s, _ in orig)
@@ -226,17 +275,7 @@ def run(ctx):
             seen.add(key)
             nontrivial += (after_lines is not None and 0 < len(after_lines) < len(orig))
         # ---- case for the model
-        rxs = opt["regex"].split(",") if "regex" in opt else []
-        tbl = [(rx, s, bool(re.search(rx, s))) for rx in rxs for s, _ in orig]
-        cfg = "{| min_length := %d; max_length := %d; terminal_set := %s; regexes := %s |}" % (
-            opt.get("min", 0), opt.get("max", 0),
-            "None" if "set" not in opt else "(Some %s)" % common.clist([common.cstr(x.upper()) for x in opt["set"].split(",")]),
-            common.clist([common.cstr(x) for x in rxs]) if rxs else "(@nil str)")
-        pairs = lambda ls: common.clist(["(%s, %s)" % (common.cstr(a), common.cstr(b.strip())) for a, b in ls]) if ls else "(@nil (str * str))"
-        impl = "None" if after_lines is None else "(Some %s)" % pairs(after_lines)
-        cases.append("(%s, %s, %s, %s)" % (
-            common.clist(["(%s, %s, %s)" % (common.cstr(a), common.cstr(b), common.cbool(c)) for a, b, c in tbl]) if tbl else "(@nil (str * str * bool))",
-            cfg, pairs(orig), impl))
+        cases.append(coq_case(orig, after_lines, opt))
         if len(samples) < 3 and after_lines is not None and 0 < len(after_lines) < len(orig):
             samples.append({"options": opt, "copy": bool(copy), "before": [a for a, _ in orig], "after": [a for a, _ in after_lines]})
         shutil.rmtree(rd, ignore_errors=True)
@@ -259,7 +298,8 @@ def run(ctx):
             corr.append(("edit:" + name, True, ""))
     rule = ("generated rulesets with multi-digit lengths (A10, A12, D11), years, context labels, keyboard walks and a Markov line; "
             "edit_rules.py as a subprocess with combinations of --min_length/--max_length, --terminal_set (incl. lower-case), --regex and "
-            "--copy; grammar.txt before/after, directory hashes, and the lengths of ALL non-Markov guesses of the edited ruleset; "
+            "--copy, every second ruleset edited a second time with fresh options; 'other' values beginning / ending with a blank "
+            "(space, NBSP, U+3000); grammar.txt before/after, directory hashes, and the lengths of ALL non-Markov guesses of the edited ruleset; "
             "non-trivial = some but not all structures removed; distinct by (grammar.txt, options)")
     return {"evaluations": dist["runs"], "distinct_nontrivial": nontrivial, "rule": rule, "samples": samples,
             "corr": corr, "violations": vio, "dist": dist}
